@@ -313,11 +313,17 @@ func (te *tableEngine) playersAutoIn() {
 }
 
 func (te *tableEngine) batchRemovePlayers(playerIDs []string) error {
+	// the seat manager validates the whole list before it frees any seat: ask it first, so
+	// that a list naming an unknown player changes nothing
+	if err := te.sm.RemoveSeats(playerIDs); err != nil {
+		return err
+	}
+
 	newPlayerStates, newSeatMap, newGamePlayerIndexes := te.calcLeavePlayers(te.table.State.Status, playerIDs, te.table.State.PlayerStates, te.table.Meta.TableMaxSeatCount)
 	te.table.State.PlayerStates = newPlayerStates
 	te.table.State.SeatMap = newSeatMap
 	te.table.State.GamePlayerIndexes = newGamePlayerIndexes
-	return te.sm.RemoveSeats(playerIDs)
+	return nil
 }
 
 func (te *tableEngine) refreshNextBBOrderPlayerIDs(currentBBSeatID, tableMaxSeatCount int, players []*TablePlayerState, seatMap []int) []string {
